@@ -1727,7 +1727,19 @@ struct Cost {
 /// In-situ cache tie: the queries one pass made of each node's cache, replayed on the Lean cache model. On a fresh tree
 /// a node's cache sees, per query in completion order, `get` (hit → answer) or `get` (miss) followed by `store` of the
 /// computed output. At most `cap` request lines are written; per node the sequence written is a prefix.
+std::thread_local! {
+    /// request lines the in-situ cache tie has written in this run (a run writes at most `CACHE_TIE_BUDGET`)
+    static CACHE_TIE_LINES: Cell<usize> = const { Cell::new(0) };
+}
+const CACHE_TIE_BUDGET: usize = 2_000_000;
+
 fn emit_cache_tie(out: &mut Out, c: &Cost, cap: usize) {
+    let used = CACHE_TIE_LINES.with(|x| x.get());
+    if used >= CACHE_TIE_BUDGET {
+        out.count("cache-tie:skipped-over-run-budget");
+        return;
+    }
+    let cap = cap.min(CACHE_TIE_BUDGET - used);
     let mut per: BTreeMap<usize, Vec<&vh::TraceEvent>> = BTreeMap::new();
     for (i, e) in &c.events {
         per.entry(*i).or_default().push(e);
@@ -1767,6 +1779,7 @@ fn emit_cache_tie(out: &mut Out, c: &Cost, cap: usize) {
             }
         }
     }
+    CACHE_TIE_LINES.with(|x| x.set(x.get() + lines));
 }
 
 const C16_FACTOR: u64 = 64;
@@ -2093,7 +2106,7 @@ pub fn run_c16(cfg: &Cfg, out: &mut Out) -> String {
     }
     // (ii) chains: one case per family, depths 1..=64
     let mut fr_rng = Rng::for_case(cfg.seed, 0xC16);
-    let fams = chain_families(&mut fr_rng, cfg.n(300, 5_000) as usize);
+    let fams = chain_families(&mut fr_rng, cfg.n(300, 1_200) as usize);
     for f in &fams {
         if cfg.wants(idx) {
             out.begin_case(idx, "chain");
@@ -2124,7 +2137,7 @@ pub fn run_c16(cfg: &Cfg, out: &mut Out) -> String {
                 if c.queries_exceeded {
                     query_blowup_at = Some(d);
                 }
-                if c.aborted || c.queries_exceeded || t0.elapsed().as_secs() > 20 {
+                if c.aborted || c.queries_exceeded || t0.elapsed().as_secs() > 10 {
                     break;
                 }
             }
